@@ -73,7 +73,7 @@ def _same(folded, ztrue, sort, ctx):
     return zb.as_long() == fb
 
 
-def run(sort="DOUBLE", group="arith", budget_s=60, known_labels=(), shard=0, nshards=1):
+def run(sort="DOUBLE", group="arith", budget_s=60, known_labels=(), shard=0, nshards=1, only=None):
     import claripy
     import fnmatch
     t0 = time.time()
@@ -84,6 +84,8 @@ def run(sort="DOUBLE", group="arith", budget_s=60, known_labels=(), shard=0, nsh
     counts = {}
 
     def rec(label, detail, wit):
+        if only is not None and only not in label:
+            return          # this run reports one kind of failure only (C04: crashes)
         if any(label == p or fnmatch.fnmatch(label, p) for p in known_labels):
             kh[label] = kh.get(label, 0) + 1
         else:
